@@ -257,16 +257,7 @@ fn sha512_cat(parts: &[&[u8]]) -> [u8; 64] {
 /// (sig, pk') with R' = rB + t_r, A' = A + t_a, S = r + H(R', A', M) * a  (a = the seed's secret scalar).
 fn torsion_forgery(seed: &[u8; 32], m: &[u8], t_r: &[u8; 32], t_a: &[u8; 32], prehashed: bool) -> ([u8; 64], [u8; 32]) {
     let (pk, _) = so::sign_seed_keypair(seed);
-    let h = so::sha512(seed);
-    let mut a = [0u8; 64];
-    a[..32].copy_from_slice(&h[..32]);
-    a[0] &= 248;
-    a[31] &= 127;
-    a[31] |= 64;
-    let a = so::ed25519_scalar_reduce(&a);
-    if so::ed25519_base_noclamp(&a) != Some(pk) {
-        panic!("{} secret scalar does not reproduce the public key", HARNESS);
-    }
+    let a = secret_scalar(seed);
     let r = so::ed25519_scalar_reduce(&sha512_cat(&[b"witness C06 torsion nonce", &a, m]));
     let rb = so::ed25519_base_noclamp(&r).expect("r != 0");
     let big_r = so::ed25519_add(&rb, t_r).expect("R + torsion");
@@ -284,7 +275,46 @@ fn torsion_forgery(seed: &[u8; 32], m: &[u8], t_r: &[u8; 32], t_a: &[u8; 32], pr
     (sig, pk2)
 }
 
+/// The seed's secret scalar a (clamped, reduced mod L), checked against the public key.
+fn secret_scalar(seed: &[u8; 32]) -> [u8; 32] {
+    let (pk, _) = so::sign_seed_keypair(seed);
+    let h = so::sha512(seed);
+    let mut a = [0u8; 64];
+    a[..32].copy_from_slice(&h[..32]);
+    a[0] &= 248;
+    a[31] &= 127;
+    a[31] |= 64;
+    let a = so::ed25519_scalar_reduce(&a);
+    if so::ed25519_base_noclamp(&a) != Some(pk) {
+        panic!("{} secret scalar does not reproduce the public key", HARNESS);
+    }
+    a
+}
+
+/// (sig, pk') with R = `r_enc` exactly as given (a small-order encoding), A' = A + t_a, S = H(R, A', M) * a mod L.
+/// [S]B - [k]A' = -[k]t_a: for t_a = identity this is the identity for every message, so with R = 01 00..00 the group
+/// equation holds; with a torsion component in A' it equals any chosen small-order R for about one message in eight.
+/// No signer emits such a signature; libsodium refuses every small-order R before looking at the equation.
+fn small_order_r_forgery(seed: &[u8; 32], m: &[u8], r_enc: &[u8; 32], t_a: &[u8; 32], prehashed: bool) -> ([u8; 64], [u8; 32]) {
+    let (pk, _) = so::sign_seed_keypair(seed);
+    let a = secret_scalar(seed);
+    let pk2 = so::ed25519_add(&pk, t_a).expect("A + torsion");
+    let k = if prehashed {
+        let ph = so::sha512(m);
+        so::ed25519_scalar_reduce(&sha512_cat(&[DOM2_PH, r_enc, &pk2, &ph]))
+    } else {
+        so::ed25519_scalar_reduce(&sha512_cat(&[r_enc, &pk2, m]))
+    };
+    let s_ = so::ed25519_scalar_muladd(&k, &a, &[0u8; 32]);
+    let mut sig = [0u8; 64];
+    sig[..32].copy_from_slice(r_enc);
+    sig[32..].copy_from_slice(&s_);
+    (sig, pk2)
+}
+
 pub const C06: Registry = &[
+    // (sig, m, pk) constructed by `small_order_r_forgery`; same body as verify_verdict
+    ("verify_small_order_commitment", verify_verdict),
     // (sig, m, pk) constructed by `torsion_forgery`; same body as verify_verdict
     ("verify_torsion_component", verify_verdict),
     ("keypair_from_seed", keypair_from_seed),
@@ -478,6 +508,38 @@ pub fn c06(ctx: &mut Ctx) -> Search {
     // the sweep must contain both honest signatures (no torsion) and forgeries, or the construction is off
     if accepted < 4 || rejected < 100 {
         panic!("{} torsion sweep: libsodium accepted {} and rejected {}", HARNESS, accepted, rejected);
+    }
+
+    // small-order commitment R (every canonical encoding of the 8 torsion points, and the non-canonical / sign-bit
+    // encodings of `small_order_points`) with S = H(R, A, M) * a mod L built from the secret scalar, for an honest A and
+    // for A with a torsion component; pure and pre-hashed construction.  libsodium rejects all of them.
+    // (own generator state: the inputs above stay what they were)
+    let mut rng2 = ctx.rng.clone();
+    let mut r_encodings: Vec<[u8; 32]> = tors.clone();
+    for p in &pts {
+        if !r_encodings.contains(p) {
+            r_encodings.push(*p);
+        }
+    }
+    for round in 0..(if t { 4 } else { 1 }) {
+        let seed = rng2.arr::<32>();
+        for r_enc in &r_encodings {
+            for (ja, t_a) in tors.iter().enumerate() {
+                // honest A: a few lengths; mixed-order A: enough messages for -[k]t_a to hit R now and then
+                let nmsg = if ja == 0 { 4 } else if t { 16 } else { 6 };
+                for j in 0..nmsg {
+                    let m = rng2.bytes([0usize, 1, 17, 200][j % 4] + round + j / 4);
+                    for prehashed in [false, true] {
+                        let (sig, pk2) = small_order_r_forgery(&seed, &m, r_enc, t_a, prehashed);
+                        let ok = if prehashed { so::sign_ph_verify(&[&m], &sig, &pk2) } else { so::sign_verify_detached(&sig, &m, &pk2) };
+                        if ok {
+                            panic!("{} libsodium accepted a signature with a small-order R", HARNESS);
+                        }
+                        ctx.run("verify_small_order_commitment", Input::new().b("sig", &sig).b("m", &m).b("pk", &pk2))?;
+                    }
+                }
+            }
+        }
     }
     Ok(())
 }
